@@ -123,6 +123,8 @@ func tstOnce(closers []string, it int) string {
 				switch {
 				case c[0] == 'c':
 					tn.Close(ctunnel.CloseReason(atoi(c[1:])), nil)
+				case c[0] == 't':
+					mgr.CloseTunnel(id, ctunnel.CloseReason(atoi(c[1:])))
 				case c == "p":
 					mgr.OnTunnelClosed(id, "m1", "peer", 1, 2, 3)
 				case c == "a":
